@@ -56,8 +56,10 @@ POOLS = {
 # ---- leg A: in-process differential -----------------------------------------------------------
 
 @st.composite
-def _plan(draw, max_len):
-    kind = draw(st.sampled_from(["f", "f", "f", "i", "i", "b", "d", "d", "t", "t", "f32", "i32"]))
+def _plan(draw, max_len, narrow=True):
+    # float32 / int32 columns (known finding R21) are explored in the thorough tier only: their kernels
+    # double the JIT warm-up of the quick tier; the R21 witness replay runs in both tiers.
+    kind = draw(st.sampled_from(["f", "f", "f", "i", "i", "b", "d", "d", "t", "t"] + (["f32", "i32"] if narrow else [])))
     h = draw(st.sampled_from(ALL if kind in ("f", "i", "b", "f32", "i32") else ORD))
     n = draw(st.one_of(st.sampled_from([1, 2]), st.integers(1, max_len)))
     pool = POOLS[kind]
@@ -78,7 +80,7 @@ def _plan(draw, max_len):
 
 
 def strategy(tier):
-    return _plan(8 if tier == "quick" else 24)
+    return _plan(8 if tier == "quick" else 24, narrow=(tier != "quick"))
 
 
 def nontrivial(plan):
@@ -111,30 +113,30 @@ def _frame(plan):
                          "x": build.column(plan["kind"], plan["vals"])})
 
 
-_warm = [False]
+_warm = set()
 
-def _warm_up():
-    """Compile every kernel family for every kind in a fixed benign order (nth/mode before min/max)."""
-    if _warm[0]:
+
+def _warm_up(kind):
+    """Compile every kernel family for this kind in a fixed benign order (nth/mode before min/max)."""
+    if kind in _warm:
         return
     di.USE_NUMBA = True
-    for kind in ["f", "i", "b", "d", "t", "f32", "i32"]:
-        vals = (POOLS[kind] * 3)[-3:]
-        data = di.DataFrame({"g": np.array([1, 1, 2]).view(di.DataFrameColumn), "x": build.column(kind, vals)})
-        hs = [di.nth("x", 1), di.first("x"), di.last("x"), di.mode("x"), di.count_unique("x"), di.count("x"),
-              di.min("x"), di.max("x")]
-        if kind in ("f", "i", "b", "f32", "i32"):
-            hs += [di.quantile("x", 0.5), di.all("x"), di.any("x"), di.mean("x"), di.median("x"), di.std("x"),
-                   di.var("x"), di.sum("x")]
-        for h in hs:
-            data.group_by("g").aggregate(y=h)
-    _warm[0] = True
+    vals = (POOLS[kind] * 3)[-3:]
+    data = di.DataFrame({"g": np.array([1, 1, 2]).view(di.DataFrameColumn), "x": build.column(kind, vals)})
+    hs = [di.nth("x", 1), di.first("x"), di.last("x"), di.mode("x"), di.count_unique("x"), di.count("x"),
+          di.min("x"), di.max("x")]
+    if kind in ("f", "i", "b", "f32", "i32"):
+        hs += [di.quantile("x", 0.5), di.all("x"), di.any("x"), di.mean("x"), di.median("x"), di.std("x"),
+               di.var("x"), di.sum("x")]
+    for h in hs:
+        data.group_by("g").aggregate(y=h)
+    _warm.add(kind)
 
 
 def check(plan, ctx):
     if "steps" in plan:
         return _check_history(plan, ctx)
-    _warm_up()
+    _warm_up(plan["kind"])
     ctx.cls("helper_" + plan["helper"], "kind_" + plan["kind"])
     data = _frame(plan)
     before = build.snap_frame(data)
